@@ -24,11 +24,11 @@ CHECKS = {
    note='numeric values are not modelled (kinds/types only); TLC string equality decides evaluate(quote(s)) = s',
    technique='TLA+ constant spec model-checked by TLC + TLC trace validation'),
  'C19': dict(engine='syntax', design='5 C19, 4.2',
-   text='TLC checks ParseTriples(FmtTriples(ts)) = ts and agreement of all documented spacing variants on every small list (MC_Triples); recorded format_triples/parse_triples executions on corpus graphs and random lists (quoted targets with blanks, commas, parentheses, carets) are judged by TLC.',
+   text='TLC checks ParseTriples(FmtTriples(ts)) = ts and agreement of all documented spacing variants on every small list (MC_Triples); recorded format_triples/parse_triples executions on corpus graphs and random lists (quoted targets with blanks, commas, parentheses, carets) are judged by TLC. The text is read a second time after the caller has changed the first result in place.',
    note='lists outside the notation (commas/carets in sources or roles) are not judged',
    technique='TLA+ triple-conjunction spec model-checked by TLC + TLC trace validation'),
  'C04': dict(engine='layout', design='5 C04, 4.5',
-   text='TLC checks the clauses of the documented reading (one instance triple per node, null concept first, one triple per branch in depth-first order, single deinversion only towards node variables and never under the no-op model, alignments never inside triples, marker counts) on every tree of a bounded instance under three models (MC_Interpret); the real interpret / alignments / role_alignments are run on the TLC-exported trees, corpus trees and random well- and ill-formed trees under five kinds of model, and TLC compares top, ordered triples, variables and alignment attachment with the reference reading.',
+   text='TLC checks the clauses of the documented reading (one instance triple per node, null concept first, one triple per branch in depth-first order, single deinversion only towards node variables and never under the no-op model, alignments never inside triples, marker counts) on every tree of a bounded instance under three models (MC_Interpret); the real interpret / alignments / role_alignments are run on the TLC-exported trees, corpus trees and random well- and ill-formed trees under five kinds of model, and TLC compares top, ordered triples, variables and alignment attachment with the reference reading. How every reported alignment marker reads its own text (prefix, indices) is judged against the documented alignment syntax.',
    note='reference reading written from docs/notation.rst and docs/structures.rst; Push/POP placement is drift here (gates in C02/C14); model tables are data',
    technique='TLA+ reference interpretation model-checked by TLC + TLC trace validation of recorded interpret results'),
  'C02': dict(engine='layout', design='5 C02, 4.5-4.6',
@@ -36,11 +36,11 @@ CHECKS = {
    note='normal form = drop an empty concept slot only; the machine models layout markers, alignments are covered by the trace judge only',
    technique='PlusCal machine of configure model-checked by TLC + TLC trace validation of recorded round trips'),
  'C03': dict(engine='layout', design='5 C03, 4.6',
-   text='TLC checks on the PlusCal machine of configure (MC_Configure, MODE=corrupt) that for every bounded graph, triple order, marker assignment and top the result denotes the same graph or LayoutError is raised exactly when the graph is not connected, with termination; the real encode is run on random well-formed connected graphs in shuffled orders from every top with typed constants (0, 0.0, -1, None, strings) and on decoded graphs, and TLC judges the recorded tree, text, re-parse and re-decode with the postcondition EncodesTo.',
+   text='TLC checks on the PlusCal machine of configure (MC_Configure, MODE=corrupt) that for every bounded graph, triple order, marker assignment and top the result denotes the same graph or LayoutError is raised exactly when the graph is not connected, with termination; the real encode is run on random well-formed connected graphs in shuffled orders from every top with typed constants (0, 0.0, -1, None, strings) and on decoded graphs, and TLC judges the recorded tree, text, re-parse and re-decode with the postcondition EncodesTo. A share of the graphs is reached by an edit history on one live object (queried and encoded before the in-place edit) or is a deep copy / pickle round trip of the graph built.',
    note='constants compared by written form; which layout is chosen is not judged; roles whose inversion the model defines (O1) and inexpressible constants are outside the precondition',
    technique='PlusCal machine + postcondition operators model-checked by TLC + TLC trace validation of recorded encode/decode executions'),
  'C06': dict(engine='layout', design='5 C06, 4.6',
-   text='Same PlusCal machine: every insertion position x Push(a)/Push(b)/none x POP/none x top is explored by TLC with the invariant "LayoutError iff not connected, else same content", a bound on improvisation rounds and Termination; the real encode is run on decoded graphs under 1-5 marker/order edits and on arbitrary triple lists, and TLC judges success/failure precision, exception class and content.',
+   text='Same PlusCal machine: every insertion position x Push(a)/Push(b)/none x POP/none x top is explored by TLC with the invariant "LayoutError iff not connected, else same content", a bound on improvisation rounds and Termination; the real encode is run on decoded graphs under 1-5 marker/order edits and on arbitrary triple lists, and TLC judges success/failure precision, exception class and content. A share of the graphs is reached by an edit history on one live object (queried and encoded before the in-place edit) or is a deep copy / pickle round trip of the graph built.',
    note='hangs detected by a 5 s timeout; Push markers naming non-variables and phantom explicit tops are not judged (O10, O11); only layout markers are corrupted, alignment markers stay with their triples',
    technique='PlusCal machine model-checked by TLC (histories of marker edits) + TLC trace validation'),
  'C05': dict(engine='layout', design='5 C05, 4.7',
@@ -52,11 +52,11 @@ CHECKS = {
    note='marker-less answers beyond "no exception, no pushed variable" are drift',
    technique='TLA+ ghost-variable spec model-checked by TLC + TLC trace validation'),
  'C10': dict(engine='layout', design='5 C10, 4.10',
-   text='The naming loop of reset_variables is a TLA+ machine (MC_Relabel): TLC checks bijection, first-free-candidate choice, agreement with the functional plan, the pigeonhole progress measure and termination for every format with an index field; recorded reset_variables executions on corpus and random trees x formats are judged by TLC: the observed map is a bijection, applied at every definition and (aligned) reference and nowhere else, and interpretation commutes with renaming.',
-   note='F15 (formats without index field never return when two nodes format alike) is an open known finding, detected by a 1-2 s timeout and the specification predicate; exact prefix rule is drift',
+   text='The naming loop of reset_variables is a TLA+ machine (MC_Relabel): TLC checks bijection, first-free-candidate choice, agreement with the functional plan, the pigeonhole progress measure and termination for every format with an index field; recorded reset_variables executions on corpus and random trees x formats are judged by TLC: the observed map is a bijection, applied at every definition and (aligned) reference and nowhere else, and interpretation commutes with renaming. In the thorough tier Apalache discharges an inductive invariant of the naming loop (Apa_Relabel: injective for any names and any number of candidates tried, trees of up to 8 nodes).',
+   note='F15 (formats without index field never return when two nodes format alike) is an open known finding, detected by a 1-2 s timeout and the specification predicate; the documented prefix (first alphabetic character of the concept, lower-cased, or _) gates, the choice of the index is drift',
    technique='TLA+ machine of the naming loop model-checked by TLC + TLC trace validation'),
  'C13': dict(engine='model', design='5 C13, 4.4',
-   text='TLC checks the role algebra (colon, inversions removed in pairs, normalisation last, defined roles never inverted, involution and flip on inversion-canonical roles, triple laws, idempotence exactly for closed normalisation tables) on every model table over a small role universe x every role base x k inversions (MC_Model); the (table, role) pairs exported by TLC and roles of the default, AMR, no-op, MiniAMR and custom models are run through the real Model methods and canonicalize_roles, and TLC judges every recorded value against the specification functions and the laws.',
+   text='TLC checks the role algebra (colon, inversions removed in pairs, normalisation last, defined roles never inverted, involution and flip on inversion-canonical roles, triple laws, idempotence exactly for closed normalisation tables) on every model table over a small role universe x every role base x k inversions (MC_Model); the (table, role) pairs exported by TLC and roles of the default, AMR, no-op, MiniAMR and custom models are run through the real Model methods and canonicalize_roles, and TLC judges every recorded value against the specification functions and the laws. The triple laws are judged on triples whose ends are variables, quoted strings, numbers, None and self-loops.',
    note='O1 roles (undefined role whose inversion the model defines) are outside the algebra; F16 is an open known finding with the specification predicate ~ClosedTable as its signature; regex role patterns other than prefix+digits are not modelled',
    technique='TLA+ role algebra model-checked by TLC over all small model tables + TLC trace validation of recorded Model method results'),
  'C15': dict(engine='graph', design='5 C15, 4.8',
@@ -68,24 +68,24 @@ CHECKS = {
    note='preconditions (no collapsible node initially, unambiguous table for the roles used) are specification predicates; model tables are data',
    technique='TLA+ transformation functions model-checked by TLC + TLC trace validation of recorded reify/dereify executions'),
  'C12': dict(engine='transform', design='5 C12, 4.9',
-   text='The four transformations are a TLA+ program machine (MC_Transform): TLC checks same top, well-formedness, connectivity after every step of every program (branches indicated at most once) from every small decoded or marker-stripped start graph, and the attribute / branch clauses as action properties; recorded programs of 1-4 transformations of the real code on decoded, hand-built, edited and re-topped graphs are validated step by step by the trace specification J_Transform (no exception, same top, well-formed, connected, encodes and decodes to itself, clause per transformation); exact agreement with the specification functions is reported as drift.',
+   text='The four transformations are a TLA+ program machine (MC_Transform): TLC checks same top, well-formedness, connectivity after every step of every program (branches indicated at most once) from every small decoded or marker-stripped start graph, and the attribute / branch clauses as action properties; recorded programs of 1-4 transformations of the real code on decoded, hand-built, edited and re-topped graphs are validated step by step by the trace specification J_Transform (no exception, same top, well-formed, connected, encodes and decodes to itself, clause per transformation); exact agreement with the specification functions is reported as drift. Start graphs and intermediate graphs may be deep copies, pickle round trips or results of a set operation.',
    note='graphs using both roles of an ambiguous reification (AMR :subset and :superset) are outside the precondition (O14)',
    technique='TLA+ program machine model-checked by TLC + step-by-step TLC trace validation of recorded transformation programs'),
  'C16': dict(engine='cli', design='5 C16, 4.11',
-   text='The run of the tool is a TLA+ machine (MC_CliRun: inputs in order, graphs in order, status accumulated): TLC checks exit = 1 iff --check and some graph of some input is bad, monotonicity of the status, one output per graph in order and termination for every sequence of up to 3 inputs of up to 2 good/bad graphs; every such sequence exported by TLC is run through the real command (files, stdin, subprocess sample) and TLC judges exit status and error-N metadata; Model.errors of the real code on all small and random triple lists x tops x models is judged by TLC against the specification of role validity and weak reachability.',
+   text='The run of the tool is a TLA+ machine (MC_CliRun: inputs in order, graphs in order, status accumulated): TLC checks exit = 1 iff --check and some graph of some input is bad, monotonicity of the status, one output per graph in order and termination for every sequence of up to 3 inputs of up to 2 good/bad graphs; every such sequence exported by TLC is run through the real command (files, stdin, subprocess sample) and TLC judges exit status and error-N metadata; Model.errors of the real code on all small and random triple lists x tops x models is judged by TLC against the specification of role validity and weak reachability. The exit status is also judged under --quiet (nothing may be written).',
    note='which graphs are bad in the command runs is taken from Model.errors, itself judged in the same check; one metadata entry per offending triple (O8)',
    technique='TLA+ exit-status machine model-checked by TLC + replay of TLC-enumerated input sequences on the real command + TLC trace validation of Model.errors'),
  'C20': dict(engine='cli', design='5 C20, 4.11',
-   text='Cli.tla decodes an option record into an argument vector and the documented stage list (order, model and key functions each stage must receive, separators, exit status); TLC checks stage order, model-everywhere, exactly one layout stage and formatting-last over the whole option space (MC_CliOpts) and exports every option set with its plan; a seeded sample is replayed: the harness executes the exported plan with library calls and runs the real command (in-process main(), stdin or 1-2 files, 4% real subprocesses); TLC judges byte equality, exit status, one output per input graph, content invariance under formatting options, content preservation without normalisation options and the fixed-point clause.',
-   note='stage semantics are the library functions (covered by their own properties); F17 and F19 are open known findings with specification predicates as signatures; the fixed-point clause is judged on single-stream runs; random keys: exit status only',
+   text='Cli.tla decodes an option record into an argument vector and the documented stage list (order, model and key functions each stage must receive, separators, exit status); TLC checks stage order, model-everywhere, exactly one layout stage and formatting-last over the whole option space (MC_CliOpts) and exports every option set with its plan; a seeded sample is replayed: the harness executes the exported plan with library calls and runs the real command (in-process main(), stdin or 1-2 files, 4% real subprocesses); TLC judges byte equality, exit status, one output per input graph, content invariance under formatting options, content preservation without normalisation options and the fixed-point clause. Every option set within two option values of the empty one over the full value space (Cli!NearDefault) is replayed in both tiers; with --check the texts are compared without the error-N metadata lines and the offending triples those lines name per graph as sets.',
+   note='stage semantics are the library functions (covered by their own properties); F17, F19, F23 and F24 are open known findings with specification predicates as signatures; the fixed-point clause is judged on single-stream runs; random keys: exit status only',
    technique='TLA+ model of option decoding and pipeline plumbing model-checked by TLC + spec-to-code replay of exported plans, judged by TLC'),
  'C09': dict(engine='stream', design='5 C09, 4.10',
-   text='Stream.tla defines the containers (one string, lines without / with terminators, a text-mode file) as feeders of the same lexer/parser and the stream grammar (COMMENT* Node)*; TLC checks that every text up to a bound over an alphabet with LF, CR, NEL, VT, comments and node syntax has the same outcome in every container, that only LF/CRLF/CR end lines, and that sequences of trees written with every separator (and to a file) read back equal with comments attached to the following graph (MC_Stream); the real loads / load / iterdecode / iterparse on strings, line lists, StringIO and real files, and dumps / dump round trips, are judged by TLC against the specification outcome.',
+   text='Stream.tla defines the containers (one string, lines without / with terminators, a text-mode file) as feeders of the same lexer/parser and the stream grammar (COMMENT* Node)*; TLC checks that every text up to a bound over an alphabet with LF, CR, NEL, VT, comments and node syntax has the same outcome in every container, that only LF/CRLF/CR end lines, and that sequences of trees written with every separator (and to a file) read back equal with comments attached to the following graph (MC_Stream); the real loads / load / iterdecode / iterparse on strings, line lists, StringIO and real files, and dumps / dump round trips, are judged by TLC against the specification outcome. Long streams are judged text by text (the reading of a stream is the concatenation of the readings of its graph texts) with line ends, CR LF pairs and graph ends placed on, before and after the block sizes of buffered file reading; dump / load on two paths is a TLA+ state machine (MC_File: read-your-last-write, other path untouched) whose histories are replayed on real files (path, pathlib.Path, open file).',
    note='the OS is not modelled (a file is a text split at LF, CRLF, CR); error positions are C07; graphs in the dumps clause must come from well-formed trees under the model (specification predicate)',
    technique='TLA+ spec of containers and stream framing model-checked by TLC + TLC trace validation of recorded load/dump executions'),
  'C17': dict(engine='purity', design='5 C17, 4.11',
-   text='Purity.tla is a history machine over a pool of shared objects with 23 API operations: TLC checks the frame conditions (a pure call changes no pool object, an in-place call changes only its target) and that results are a function of argument values on every history up to a bound, and generates call histories in simulation mode; each history is replayed on real objects under four hash seeds and inside a worker process with snapshots of every pool object before and after every call; TLC validates the frame conditions on the recorded snapshots, function-of-arguments across the history, and identity of all runs; the command is run as a subprocess under four hash seeds and outputs compared by TLC.',
-   note='hash seeds and processes cannot be modelled: identical histories are replayed and compared; projection excludes the iteration order of the marker dictionary (O6); aliasing that only a later user mutation of a result would reveal is not gated',
+   text='Purity.tla is a history machine over a pool of shared objects with 26 API operations: TLC checks the frame conditions (a pure call changes no pool object, an in-place call changes only its target) and that results are a function of argument values on every history up to a bound, and generates call histories in simulation mode; each history is replayed on real objects under four hash seeds and inside a worker process with snapshots of every pool object before and after every call; TLC validates the frame conditions on the recorded snapshots, function-of-arguments across the history, and identity of all runs; the command is run as a subprocess under four hash seeds and outputs compared by TLC. After every call that returns a plain value the caller changes that value in place and repeats the call (a returned value belongs to the caller); a directed sub-machine (DSpec), enumerated completely by TLC, lets a graph derived from a pool graph meet that graph as the other operand of every binary operation, in both orders.',
+   note='hash seeds and processes cannot be modelled: identical histories are replayed and compared; projection excludes the iteration order of the marker dictionary (O6)',
    technique='TLA+ history machine (frame conditions) model-checked by TLC + replay of TLC-simulated call histories under several hash seeds/processes, validated by TLC'),
 }
 NOT_YET = 'check not built yet (build in progress, see DESIGN.md section 11)'
